@@ -84,6 +84,15 @@ Roundtrips(c, items) ==
                       [c |-> c, m |-> ModelOf(c), x |-> items[i].x]]
     /\ UNCHANGED model
 
+(* The symbol-level law of the public rANS / FSE step functions (Rans64Encoder::encode_symbol +  *)
+(* Rans64Decoder::decode_symbol, FseTable::encode_symbol + decode_symbol): decoding the state that *)
+(* encoding symbol s from state x produced gives back s and x - losslessness one symbol at a time. *)
+(* items[i] = [s, x, ok, ds, dx, ...]; states are decimal strings (64 bit), compared for equality; *)
+(* ok = FALSE: the encoder refused the symbol (no slot) - allowed.                                  *)
+StepLaw(items) ==
+    /\ \A i \in 1..Len(items) : items[i].ok => (items[i].ds = items[i].s /\ items[i].dx = items[i].x)
+    /\ UNCHANGED csvars
+
 (* the only results the contract accepts for a matching decode *)
 AcceptedDecodeResults(c, b, n, Ys) ==
     { r \in BOOLEAN \X Ys : Matching(c, b, n) => (r[1] /\ r[2].len = enc[b].x.len /\ r[2].h = enc[b].x.h) }
